@@ -1712,14 +1712,14 @@ Proof. unfold rt_again. rewrite layout_fresh, tree_of_reruns. apply rt_strip. Qe
 
 Lemma run_steps_app : forall s1 st s2, run_steps st (s1 ++ s2) = run_steps (run_steps st s1) s2.
 Proof.
-  induction s1 as [|[e p] s1 IH]; intros st s2; [reflexivity|]. cbn [app run_steps]. apply IH.
+  induction s1 as [|[es p] s1 IH]; intros st s2; [reflexivity|]. cbn [app run_steps]. apply IH.
 Qed.
 
 (* after any history of layouts and structural changes, the coordinates of the last call are the
    fresh layout of the tree as it is then *)
-Lemma relayout_is_fresh st steps e p :
-  snd (run_steps st (steps ++ [(e, p)]))
-  = reingold_tilford p (tree_of_d (apply_edit e (fst (run_steps st steps)))).
+Lemma relayout_is_fresh st steps es p :
+  snd (run_steps st (steps ++ [(es, p)]))
+  = reingold_tilford p (tree_of_d (apply_edits es (fst (run_steps st steps)))).
 Proof. rewrite run_steps_app. cbn [run_steps]. apply layout_fresh. Qed.
 
 (* =============================================================================================
